@@ -98,7 +98,9 @@ class IPv4NetworkField(StringField):
                 "value must be smaller than a /%d subnet" % self.max_prefix_len
             )
 
-        return str(net)
+        # the stored value is the canonical text ("10.1.2.3" becomes "10.1.2.3/32"): it has to
+        # meet the string constraints (length, pattern, choices) too
+        return super()._validate(cfg, str(net))
 
 
 class HostnameField(StringField):
